@@ -20,6 +20,11 @@ impl vstd::std_specs::cmp::PartialEqSpecImpl<Rank> for Rank {
     open spec fn obeys_eq_spec() -> bool { true }
     open spec fn eq_spec(&self, other: &Rank) -> bool { self.0 == other.0 }
 }
+impl vstd::std_specs::cmp::PartialEqSpecImpl<Rank> for u32 {
+    open spec fn obeys_eq_spec() -> bool { true }
+    open spec fn eq_spec(&self, other: &Rank) -> bool { *self == other.0 }
+}
+impl core::cmp::PartialEq<Rank> for u32 { #[verifier::external_body] fn eq(&self, other: &Rank) -> bool { *self == other.0 } }
 impl core::cmp::PartialEq<Rank> for Rank { #[verifier::external_body] fn eq(&self, other: &Rank) -> bool { self.0 == other.0 } }
 impl core::cmp::Eq for Rank {}
 impl vstd::std_specs::cmp::PartialOrdSpecImpl<Rank> for Rank {
@@ -68,6 +73,11 @@ impl vstd::std_specs::cmp::PartialEqSpecImpl<Base2K> for Base2K {
     open spec fn obeys_eq_spec() -> bool { true }
     open spec fn eq_spec(&self, other: &Base2K) -> bool { self.0 == other.0 }
 }
+impl vstd::std_specs::cmp::PartialEqSpecImpl<Base2K> for u32 {
+    open spec fn obeys_eq_spec() -> bool { true }
+    open spec fn eq_spec(&self, other: &Base2K) -> bool { *self == other.0 }
+}
+impl core::cmp::PartialEq<Base2K> for u32 { #[verifier::external_body] fn eq(&self, other: &Base2K) -> bool { *self == other.0 } }
 impl core::cmp::PartialEq<Base2K> for Base2K { #[verifier::external_body] fn eq(&self, other: &Base2K) -> bool { self.0 == other.0 } }
 impl core::cmp::Eq for Base2K {}
 impl vstd::std_specs::cmp::PartialOrdSpecImpl<Base2K> for Base2K {
@@ -116,6 +126,11 @@ impl vstd::std_specs::cmp::PartialEqSpecImpl<Degree> for Degree {
     open spec fn obeys_eq_spec() -> bool { true }
     open spec fn eq_spec(&self, other: &Degree) -> bool { self.0 == other.0 }
 }
+impl vstd::std_specs::cmp::PartialEqSpecImpl<Degree> for u32 {
+    open spec fn obeys_eq_spec() -> bool { true }
+    open spec fn eq_spec(&self, other: &Degree) -> bool { *self == other.0 }
+}
+impl core::cmp::PartialEq<Degree> for u32 { #[verifier::external_body] fn eq(&self, other: &Degree) -> bool { *self == other.0 } }
 impl core::cmp::PartialEq<Degree> for Degree { #[verifier::external_body] fn eq(&self, other: &Degree) -> bool { self.0 == other.0 } }
 impl core::cmp::Eq for Degree {}
 impl vstd::std_specs::cmp::PartialOrdSpecImpl<Degree> for Degree {
@@ -164,6 +179,11 @@ impl vstd::std_specs::cmp::PartialEqSpecImpl<TorusPrecision> for TorusPrecision 
     open spec fn obeys_eq_spec() -> bool { true }
     open spec fn eq_spec(&self, other: &TorusPrecision) -> bool { self.0 == other.0 }
 }
+impl vstd::std_specs::cmp::PartialEqSpecImpl<TorusPrecision> for u32 {
+    open spec fn obeys_eq_spec() -> bool { true }
+    open spec fn eq_spec(&self, other: &TorusPrecision) -> bool { *self == other.0 }
+}
+impl core::cmp::PartialEq<TorusPrecision> for u32 { #[verifier::external_body] fn eq(&self, other: &TorusPrecision) -> bool { *self == other.0 } }
 impl core::cmp::PartialEq<TorusPrecision> for TorusPrecision { #[verifier::external_body] fn eq(&self, other: &TorusPrecision) -> bool { self.0 == other.0 } }
 impl core::cmp::Eq for TorusPrecision {}
 impl vstd::std_specs::cmp::PartialOrdSpecImpl<TorusPrecision> for TorusPrecision {
@@ -212,6 +232,11 @@ impl vstd::std_specs::cmp::PartialEqSpecImpl<Dnum> for Dnum {
     open spec fn obeys_eq_spec() -> bool { true }
     open spec fn eq_spec(&self, other: &Dnum) -> bool { self.0 == other.0 }
 }
+impl vstd::std_specs::cmp::PartialEqSpecImpl<Dnum> for u32 {
+    open spec fn obeys_eq_spec() -> bool { true }
+    open spec fn eq_spec(&self, other: &Dnum) -> bool { *self == other.0 }
+}
+impl core::cmp::PartialEq<Dnum> for u32 { #[verifier::external_body] fn eq(&self, other: &Dnum) -> bool { *self == other.0 } }
 impl core::cmp::PartialEq<Dnum> for Dnum { #[verifier::external_body] fn eq(&self, other: &Dnum) -> bool { self.0 == other.0 } }
 impl core::cmp::Eq for Dnum {}
 impl vstd::std_specs::cmp::PartialOrdSpecImpl<Dnum> for Dnum {
@@ -260,6 +285,11 @@ impl vstd::std_specs::cmp::PartialEqSpecImpl<Dsize> for Dsize {
     open spec fn obeys_eq_spec() -> bool { true }
     open spec fn eq_spec(&self, other: &Dsize) -> bool { self.0 == other.0 }
 }
+impl vstd::std_specs::cmp::PartialEqSpecImpl<Dsize> for u32 {
+    open spec fn obeys_eq_spec() -> bool { true }
+    open spec fn eq_spec(&self, other: &Dsize) -> bool { *self == other.0 }
+}
+impl core::cmp::PartialEq<Dsize> for u32 { #[verifier::external_body] fn eq(&self, other: &Dsize) -> bool { *self == other.0 } }
 impl core::cmp::PartialEq<Dsize> for Dsize { #[verifier::external_body] fn eq(&self, other: &Dsize) -> bool { self.0 == other.0 } }
 impl core::cmp::Eq for Dsize {}
 impl vstd::std_specs::cmp::PartialOrdSpecImpl<Dsize> for Dsize {
